@@ -365,6 +365,11 @@ class Prop:
                             n = rng.randrange(N)
                             tj["modes"][n]["U"] = (np.array(tj["modes"][n]["U"]) * 0).tolist()
                         mk(op, tj, rng.choice([0.5, 0.1, 1e-4, 1e-8, TINY[alg]]), alg, kind="zero-" + variant)
+        # 6e. one-mode tensors (a single TT core / CP factor, with or without a Tucker factor) through every entry point
+        for rep_ in range(60 if quick else 600):
+            kinds = [rng.choice(KINDS)]
+            tj = rand_tensor_json(rng, [rng.randint(1, 5)], kinds, maxr=3, maxs=4, zero=rng.random() < 0.05)
+            mk(rng.choice(ALLOPS), tj, reps(), algs[k % 2], kind="onemode"); k += 1
         # 6d. faint but genuine components (1e-4 and 1e-9 of the largest) at tolerances far below them: they must survive
         #     (algorithm 'svd' only: the Gram-matrix route cannot resolve components below ~1e-8 relative)
         for rep_ in range(12 if quick else 120):
